@@ -15,7 +15,8 @@ import (
 // elysdrv replicas -schedules f.ndjson -out dir -seed S -workers N -tag P
 //
 // C19: every schedule is executed on three replicas that start from the identical genesis bytes:
-//   A  never stopped (also records nothing else),
+//   A  never stopped; it also behaves like a node with a mempool and an RPC: every transaction is CheckTx'ed and
+//      Simulate'd before the block that carries it (branches of the check state, never written),
 //   B  a second, independent instance (its own Go map iteration orders, its own wall-clock),
 //   C  re-instantiated from its database after EVERY committed block (node restart).
 // Each replica runs the same deterministic driver with the same seed, so as long as the application is
@@ -58,7 +59,7 @@ func cmdReplicas(args []string) {
 			for i := w; i < len(scheds); i += *workers {
 				s := scheds[i]
 				for _, rep := range []string{"A", "B", "C"} {
-					c := runReplica(gen, tmp, scheduleSeed(*seed, s.ID), s, rep == "C")
+					c := runReplica(gen, tmp, scheduleSeed(*seed, s.ID), s, rep == "C", rep == "A")
 					mu.Lock()
 					stats["replica_runs"]++
 					stats["blocks"] += int(c.Height)
@@ -96,7 +97,7 @@ func cmdReplicas(args []string) {
 }
 
 // runReplica executes one schedule on a fresh chain without projecting state; restart = re-instantiate after every block.
-func runReplica(gen *Genesis, tmp string, seed int64, s Schedule, restart bool) (c *Chain) {
+func runReplica(gen *Genesis, tmp string, seed int64, s Schedule, restart, mempool bool) (c *Chain) {
 	defer func() {
 		if r := recover(); r != nil {
 			fmt.Fprintf(os.Stderr, "DRIVER-PANIC replica schedule=%s: %v\n%s\n", s.ID, r, shortStackAll())
@@ -105,6 +106,7 @@ func runReplica(gen *Genesis, tmp string, seed int64, s Schedule, restart bool) 
 	c = NewChain(gen, tmp, seed, nil)
 	c.NoObs = true
 	c.RestartEveryBlock = restart
+	c.Mempool = mempool
 	c.SetupScene(sceneFor(s.Scene))
 	d := NewDriver(c)
 	prepScene(d, s.Scene)
